@@ -267,6 +267,15 @@ struct TemplateGen {
         }
     }
     std::string number() {
+        if (r.chance(1, 6)) {
+            // operands at the edges of the three number kinds (natural, integer, real) and just beside the values
+            // guards are written for (-1, 0, 1)
+            static const char *edge[] = {"-9223372036854775808", "9223372036854775807", "9223372036854775808", "18446744073709551615",
+                                         "18446744073709551616", "-9223372036854775809", "-1", "-1.0", "-1.5", "-0.5", "0.5", "1.5", "-0", "0.0",
+                                         "1e19", "-1e19", "1e30", "-1e30", "1e308", "1e-320", "4294967295", "4294967296", "2147483648", "-2147483649",
+                                         "9007199254740993", "1.9999999999999999", "0.9999999999999999", "-0.9999999999999999", "64", "63", "-63"};
+            return edge[r.below(sizeof(edge) / sizeof(edge[0]))];
+        }
         switch (r.below(8)) {
             case 0: return "0";
             case 1: return std::to_string(r.below(10));
